@@ -718,6 +718,77 @@ def run_model_ties(chk, binary, rng, quick):
     return nm
 
 
+# attribute bodies a derive accepts on a field (or, for the enum derives, on a variant): "" is the bare `#[attr]`
+MEMBER_ATTR_KINDS = {
+    "as_ref": ["skip", "ignore", "", "forward", "i32", "str, [u8]"], "as_mut": ["skip", "ignore", "", "forward", "i32"],
+    "from": ["skip", "ignore", "", "forward", "i64", "types(i32)"], "into": ["skip", "ignore", "", "i64", "ref", "owned(i64), ref"],
+    "debug": ["skip", "ignore", "\"{}\", 1", "\"{_0}\"", "bound(T: Tr)"],
+    "display": ["\"{}\", 1", "\"{_0}\"", "bound(T: Tr)", "skip"],
+    "error": ["ignore", "source", "backtrace", "not(source)", "not(backtrace)", ""],
+    "deref": ["ignore", "forward", ""], "deref_mut": ["ignore", "forward", ""],
+    "index": ["ignore", ""], "index_mut": ["ignore", ""],
+    "into_iterator": ["ignore", "owned", "ref", "ref_mut", "owned, ref", ""],
+    "mul": ["forward", "ignore", ""], "mul_assign": ["forward", "ignore", ""],
+    "unwrap": ["ignore", "owned", "ref", "ref_mut", ""], "try_unwrap": ["ignore", "owned", "ref", "ref_mut", ""],
+    "is_variant": ["ignore", ""], "try_into": ["ignore", "owned", "ref", "ref_mut", "owned, ref"],
+    "try_from": ["repr", "ignore"],
+}
+
+
+def _attr(name, body):
+    return "" if body is None else ("#[%s]" % name if body == "" else "#[%s(%s)]" % (name, body))
+
+
+def _members_items(name, seq):
+    """one attribute (or none) per member, in order: a named struct, a tuple struct and an enum"""
+    n = len(seq)
+    named = "struct Foo<T> { %s }" % ", ".join("%s f%d: %s" % (_attr(name, b), i, "T" if i == 0 else "i32") for i, b in enumerate(seq))
+    tup = "struct Foo<T>(%s);" % ", ".join("%s %s" % (_attr(name, b), "T" if i == 0 else "i32") for i, b in enumerate(seq))
+    enum = "enum Foo<T> { %s }" % ", ".join("%s V%d(%s)" % (_attr(name, b), i, "T" if i == 0 else "i32") for i, b in enumerate(seq))
+    return [named, tup, enum]
+
+
+def member_order_cases(rng, quick, derives):
+    """ORDER permutations of mixed per-member attributes, 2-4 members: every pair, every triple over {skip-like, one
+    other kind, none}, sampled quadruples -- for every derive that has an attribute of its own"""
+    out = []
+    for (trait, _, declared) in derives:
+        for name in declared:
+            kinds = MEMBER_ATTR_KINDS.get(name, ["ignore", "skip", "forward", ""])
+            opts = kinds + [None]
+            seqs = [(a, b) for a in opts for b in opts if not (a is None and b is None)]
+            skipish = [k for k in kinds if k in ("skip", "ignore")] or [kinds[0]]
+            for sk in skipish:
+                for other in [k for k in kinds if k != sk]:
+                    tri = [sk, other, None]
+                    seqs += [(a, b, c) for a in tri for b in tri for c in tri if sk in (a, b, c) and other in (a, b, c)]
+            for _ in range(30 if quick else 300):
+                seqs.append(tuple(rng.choice(opts) for _ in range(4)))
+            for seq in dict.fromkeys(seqs):
+                for it in _members_items(name, seq):
+                    out.append((trait, it))
+    return out
+
+
+def member_order_pins(derives):
+    """both orders of (skip-like, other) on two members, for every derive with per-member attributes: fixed corpus"""
+    out = []
+    for (trait, _, declared) in derives:
+        for name in declared:
+            kinds = MEMBER_ATTR_KINDS.get(name, ["ignore", ""])
+            skipish = [k for k in kinds if k in ("skip", "ignore")] or [kinds[0]]
+            other = [k for k in kinds if k not in skipish][:2] or [""]
+            for sk in skipish:
+                for o in other:
+                    for seq in ((sk, o), (o, sk), (sk, o, sk), (o, sk, o)):
+                        for it in _members_items(name, seq)[:2 if trait not in ("From", "Unwrap", "TryUnwrap", "IsVariant", "TryInto") else 3]:
+                            out.append((trait, it))
+    out.append(("AsRef", "struct Foo { #[as_ref(skip)] bar: i32, #[as_ref] baz: f32 }"))      # seeded change_9
+    out.append(("AsRef", "struct Foo { #[as_ref] bar: i32, #[as_ref(skip)] baz: f32 }"))
+    out.append(("AsMut", "struct Foo { #[as_mut(ignore)] bar: i32, #[as_mut(forward)] baz: Vec<u8> }"))
+    return out
+
+
 # lemma of Proofs.v that stops checking -> derives whose expansion exercises the modelled function
 LEMMA_FOCUS = {
     "validate_type_arith_safe": ["From", "Into"], "from_types_safe": ["From"], "from_legacy_error_safe": ["From"],
@@ -725,6 +796,8 @@ LEMMA_FOCUS = {
     "into_legacy_top_level_safe": ["Into"], "error_index_safe": ["Error"], "parse_fields_inv": ["Error"],
     "render_ops_safe": ["Error"], "infer_source_rem_safe": ["Error"], "try_into_member_safe": ["TryInto"],
     "as_struct_attr_unwrap_safe": ["AsRef", "AsMut"], "as_field_attrs_skip_unreachable": ["AsRef", "AsMut"],
+    "as_validation_is_present": ["AsRef", "AsMut"], "asef_guard_present": ["Deref", "DerefMut", "Index", "IndexMut", "IntoIterator", "FromStr"],
+    "vt_single_guard_present": ["From", "Into"], "il_guard_present": ["Into"], "from_str_guard_present": ["FromStr"],
     "display_shared_attr_unwrap_safe": ["Display", "Binary", "Octal", "LowerHex", "UpperHex", "LowerExp", "UpperExp", "Pointer"],
     "placeholder_counter_safe": ["Display", "Debug"], "balanced_pair_count_safe": ["Display", "Debug"],
     "assert_single_enabled_field_safe": ["Deref", "DerefMut", "Index", "IndexMut", "IntoIterator", "FromStr"],
@@ -1118,7 +1191,8 @@ def run(tier, seed, replay):
     else:
         quick = tier == "quick"
         # (a) corpus
-        run_batch([(d, it, "corpus") for d, it in CORPUS])
+        run_batch([(d, it, "corpus") for d, it in CORPUS + member_order_pins(derives)])
+        run_batch([(d, it, "member-order") for d, it in member_order_cases(rng, quick, derives)])
         # (a') listed tuple types of every arity against 0..4 fields (From / Into, all levels and kinds)
         run_batch([(d, it, "arity") for d, it in arity_cases()])
         # (a'') numeric inputs at and around the limits of every integer type
